@@ -15,6 +15,14 @@ def register(claim):
           "inside a concurrent context (value read through a pyeval probe), compared type-exact per statement.",
           "CPython non-binding exceptions are unspecified; cohdl rejections are allowed; run() is verified to be traced "
           "(cohdl.evaluated()) on every run", "DESIGN.md 3/C10")
+    claim("C11",
+          "Generated compilation histories (compile / re-exec'd copy / same object again over parametrised pools of 28 valid "
+          "and 27 differently-rejected tops; complete enumeration of ordered pairs rejected x valid, sampled valid x valid, and "
+          "PYTHONHASHSEED in {0,1,2,12345,...}) compared byte-for-byte with the output of a fresh interpreter compiling only "
+          "that design; causes are reduced to a minimal set of preceding rejected stages by re-running sub-histories in fresh "
+          "interpreters. Exploration: pools and history length are bounded.",
+          "differential oracle = fresh-interpreter golden; module-level state named in the anchors is monitored as labels only",
+          "DESIGN.md 3/C11")
     claim("C13",
           "Generated histories of first uses of the lazily cached parametrised classes (fresh widths per example, "
           "so cache-miss paths run in the generated order) checked against a dict model (identity/distinctness) and "
@@ -48,12 +56,32 @@ def register(claim):
           "a reference-free metamorphic relation (trace after <prefix>.<reset> == trace from power-up) on fully resettable "
           "designs. Bounded exploration.",
           SIM_NOTE, "DESIGN.md 3/C04")
+    claim("C08",
+          "Enumerated control-flow skeletons (if/if-else/elif chains/match +- default/for-break +- else, optionally nested, "
+          "in clocked, combinational and coroutine contexts) x placements of the definition and use of an intermediate, plus "
+          "grammar-generated programs. Oracles: the must-reject table of the property (use reachable without a binding in the "
+          "same activation, or across an await); an independent definite-assignment dataflow over every emitted process; and "
+          "a metamorphic simulation in which all intermediates are re-poisoned before every activation (two poison values) "
+          "and must not change any output.",
+          SIM_NOTE, "DESIGN.md 3/C08")
     claim("C09",
           "Every operator/method x operand-kind pair (bit, bv, u, s, Python int and cohdl.Integer on either side) x widths "
           "1..4 x ALL operand valuations: cohdl's constant folding (direct call and traced context + pyeval probe) compared "
           "with a reference model of the documented kind/width/value rules; exhaustive per cell.",
           "model returns UNSPEC / value-None where the statements are silent (x/0, unrepresentable int, shift >= width, mixed "
           "signedness); fold exceptions are counted as fold_rejected", "DESIGN.md 3/C09")
+    claim("C17",
+          "Hypothesis-generated type compositions (depth <= 3, all listed type kinds incl. inherited/templated records, "
+          "BitFields) plus an enumerated catalogue, all bit patterns for widths <= 10, against an independent layout model: "
+          "round-trip, width and layout laws at plain-Python and traced-constant level; BitField reads and Signal writes touch "
+          "exactly the declared range; the emitted round-trip entity is compiled (simulation level being added).",
+          "traced level runs on a sample because tracing costs 0.1-0.7 s per member", "DESIGN.md 3/C17")
+    claim("C18",
+          "37 std helpers over enumerated configuration tables (widths 1..9, lengths 1..9, batch sizes 1..7, all legal "
+          "shift/rotate/pad amounts) x exhaustive or corner+drawn values against mathematical definitions transcribed from the "
+          "docstrings (CRC: GF(2) long division, one or k bits per step) at plain-Python and traced-constant level.",
+          "count_set_bits/count_clear_bits are rejected by cohdl on constants and are only reachable through the simulated level",
+          "DESIGN.md 3/C18")
     claim("C19",
           "Complete enumeration (thorough: all 36 formats -3<=r<=l<=4, both signednesses, every source x target x round x "
           "overflow cell with ALL raw values; all + - * format pairs of width <= 4 with all raw pairs; constructor and "
